@@ -25,6 +25,7 @@ CInit0(props) ==
     sends |-> << >>,      \* [t, v, began, ended, res]
     fwds  |-> << >>,      \* values forwarded, in order
     gdropB|-> 0, gdropE |-> 0,
+    iscB  |-> << >>,      \* thread -> start of its is_closed() call in progress
     \* piped thread
     psent |-> << >>,      \* values given to PipedThread::send, in order (at psend_begin)
     pdone |-> 0,          \* how many of psent were completed (psend_end)
@@ -69,6 +70,16 @@ CApply(st, e, n) ==
                CB(e.w \in st.wdel, "C12", "Waker handler invoked again after its deleted=true call")
                \cup CB(e.deleted /\ e.w \notin DOMAIN st.wdrop, "C12", "deleted=true delivered to a Waker that was not dropped")
                \cup CB(e.w \notin st.known, "C12", "handler of an unknown Waker invoked"))
+    [] e.e = "pollcheck" ->
+         \* the event loop found no wake-up pending (its blocking wait timed out: nobody else can move):
+         \* nothing that was accepted may still be sitting in a queue
+         IF e.notified THEN CR(st, {}) ELSE
+         LET fw == {st.fwds[i] : i \in 1..Len(st.fwds)}
+             stranded == {i \in 1..Len(st.sends) : st.sends[i].ended /\ st.sends[i].res /\ st.sends[i].v \notin fw}
+         IN CR(st,
+               CB(stranded # {} /\ st.gdropB = 0, "C13", "accepted message left queued with no wake-up pending")
+               \cup CB(st.piped /\ st.pterms = 0 /\ st.pfwd < Len(st.lsent), "C14",
+                       "worker message left queued with no wake-up pending while the worker is still running"))
     [] e.e = "quiesce" ->
          LET lost == {i \in 1..Len(st.wakes) : st.wakes[i].ended /\ ~st.wakes[i].served}
              undel == {w \in DOMAIN st.wdrop : st.wdrop[w].ended /\ w \notin st.wdel}
@@ -90,8 +101,12 @@ CApply(st, e, n) ==
          IN CR([st EXCEPT !.sends[i].ended = TRUE, !.sends[i].res = e.res],
                CB(e.res /\ st.gdropE # 0 /\ b > st.gdropE, "C13", "send returned true after the guard was dropped")
                \cup CB(~e.res /\ st.gdropB = 0, "C13", "send returned false although the guard was not dropped"))
+    [] e.e = "isclosed_begin" ->
+         CR([st EXCEPT !.iscB = IF e.t \in DOMAIN @ THEN [@ EXCEPT ![e.t] = n] ELSE @ @@ (e.t :> n)], {})
     [] e.e = "isclosed" ->
-         CR(st, CB(e.res /\ st.gdropB = 0, "C13", "is_closed true although the guard was not dropped"))
+         CR(st, CB(e.res /\ st.gdropB = 0, "C13", "is_closed true although the guard was not dropped")
+                \cup CB(~e.res /\ st.gdropE # 0 /\ e.t \in DOMAIN st.iscB /\ st.iscB[e.t] > st.gdropE, "C13",
+                        "is_closed false although the guard had been dropped before the call began"))
     [] e.e = "isclosed_after" ->
          CR(st, CB(~e.res, "C13", "is_closed false after the guard was dropped"))
     [] e.e = "guard_drop_begin" -> CR([st EXCEPT !.gdropB = n], {})
